@@ -8,6 +8,7 @@ package, the callee's body).  Nothing here decides anything: it only produces na
 """
 import ast
 import os
+import sys
 import itertools
 import z3
 
@@ -75,6 +76,9 @@ BUILTIN_EXC_PARENTS = {
     'usb1.USBError': 'Exception', 'usb1.USBErrorNotFound': 'usb1.USBError', 'usb1.USBErrorTimeout': 'usb1.USBError',
     'ConnectionError': 'OSError', 'socket.timeout': 'OSError',
 }
+# the remaining documented python-libusb1 error classes, all direct subclasses of USBError
+for _n in ['IO', 'InvalidParam', 'Access', 'NoDevice', 'Busy', 'Overflow', 'Pipe', 'Interrupted', 'NoMem', 'NotSupported', 'Other']:
+    BUILTIN_EXC_PARENTS['usb1.USBError' + _n] = 'usb1.USBError'
 
 
 def exc_is_subclass(cls, parent):
@@ -658,7 +662,18 @@ class Executor(object):
             self.G.fields[target.split('.', 1)[1]] = v
         self.bind_lets(contract, scope)
         for c in contract.defines:
-            self.assume(self.eval_clause(c, scope))
+            # a definitional binding names the value just returned in the ghost log; it must never exclude an exit.  A binding that is
+            # ill-kinded for this result (None against a value, tuples of different length) would silently make the path vacuous.
+            self.in_define = True
+            try:
+                f = self.eval_clause(c, scope)
+            finally:
+                self.in_define = False
+            if z3.is_false(z3.simplify(f)):
+                self.oblige('result-shape-fits-the-definitional-binding', z3.BoolVal(False), set(contract.props), 'post',
+                            expr='%s (result %s)' % (c.expr, self.describe(result)), meta={'result': self.describe(result)})
+                continue
+            self.assume(f)
         self.cur_node = self.fn_node
         for c in contract.ensures:
             f = self.eval_clause(c, scope)
@@ -991,6 +1006,7 @@ class Executor(object):
     def eval_message(self, node):
         """A-MSG: building an error message does not raise and has no effect; the message value is kept where the
         subset can express it (names, attributes, str.format of those) and opaque otherwise."""
+        self.eval_property_reads(node)
         try:
             saved = (list(self.pc), list(self.decisions), list(self.work), len(self.obligs))
             if isinstance(node, (ast.Name, ast.Attribute)):
@@ -1004,6 +1020,29 @@ class Executor(object):
             self.pc, self.decisions, self.work = saved[0], saved[1], saved[2]
             del self.obligs[saved[3]:]
             return None
+
+    def eval_property_reads(self, node):
+        """Side condition of A-MSG / A-LOG: an expression that is otherwise dropped (error message, logger argument) may read a
+        *property* of `self`; that runs repository code, which can raise.  Every such read is executed like any other property read,
+        so an exception escaping from it is an exit of the enclosing function.  Where the property's body leaves the encoded subset
+        the read falls back to the assumption (no raise, no effect)."""
+        if self.mode != 'code':
+            return
+        for n in ast.walk(node):
+            if not (isinstance(n, ast.Attribute) and isinstance(n.ctx, ast.Load) and isinstance(n.value, ast.Name) and n.value.id in self.env):
+                continue
+            base = self.env[n.value.id]
+            if not isinstance(base, VObj) or n.attr in base.fields or not self.world.is_property(base, n.attr):
+                continue
+            saved = (list(self.pc), list(self.decisions), list(self.work), len(self.obligs))
+            try:
+                self.eval(n)
+            except Unsupported as e:
+                if os.environ.get('PYVC_DEBUG_MSG'):
+                    sys.stderr.write('message property %s: %s\n' % (n.attr, e))
+                self.pc, self.decisions, self.work = saved[0], saved[1], saved[2]
+                del self.obligs[saved[3]:]
+                self.world.use('message-property-opaque')
 
     def st_Try(self, st):
         try:
